@@ -19,6 +19,7 @@ RULE = ("one case per (type-level chain, pattern pair); each case renders the ch
 ANCHORS = ["decaylanguage.decay.decay:DecayChain.to_string", "decaylanguage.decay.decay:_expand_decay_modes",
            "decaylanguage.utils.utilities:DescriptorFormat.format_descriptor"]
 WORKERS = {"quick": 4, "thorough": 16}
+WTESTS = {"groups": ['to_string'], "tests": ['tests/decay', 'tests/utils']}
 REQUIRED = {"depth>=3": 50, "name-with-paren": 50, "name-with-quote-or-sign": 50, "repeated-subdecay": 50, "orders-compared": 500,
             **{f"pattern-pair-{i}": 20 for i in range(8)}, "C13.to_string.reads_back": 500}
 EXHAUSTIVE_NOTE = "tree shapes <= 5 (quick) / 6 (thorough) decaying particles enumerated with multiplicities 1..2; all daughter orders for small chains"
